@@ -786,7 +786,27 @@ func genC16Scanner(g *G) {
 
 // ---------------------------------------------------------------- C15: Quote / Join
 
-type c15 struct{ st *Stats }
+type c15 struct {
+	st     *Stats
+	maxOut int // longest Quote/Join output of this history so far (the pooled buffer has grown to at least this)
+}
+
+// noteOut labels an output by the size threshold it reached, and a short call that follows a long one in the
+// same history (the pooled buffer carries the earlier call's capacity and, if not reset, its contents).
+func (r *c15) noteOut(what string, n int) {
+	lbNote(r.st, what+"-output", n)
+	if n <= 64 {
+		switch {
+		case r.maxOut > lbKiB64:
+			r.st.Note("short-" + what + "-after-output>65536")
+		case r.maxOut > 4096:
+			r.st.Note("short-" + what + "-after-output>4096")
+		case r.maxOut > 64:
+			r.st.Note("short-" + what + "-after-output>64")
+		}
+	}
+	r.maxOut = max(r.maxOut, n)
+}
 
 func c15strings(hs []string) []string {
 	out := make([]string, len(hs))
@@ -824,6 +844,7 @@ func (r *c15) Exec(op []string) string {
 		if strings.IndexByte(s, 0) >= 0 {
 			r.st.Note("contains-NUL")
 		}
+		r.noteOut("quote", len(q))
 		fs, ok := shell.Split(q)
 		return fmt.Sprintf("q=%s fields=%s ok=%s", c15hex([]byte(q)), c15fields(fs), fmtBool(ok))
 	case "join":
@@ -841,6 +862,8 @@ func (r *c15) Exec(op []string) string {
 			r.st.Note("join-three-or-more")
 		}
 		j := shell.Join(ss)
+		lbNote(r.st, "join-args", len(ss))
+		r.noteOut("join", len(j))
 		fs, ok := shell.Split(j)
 		return fmt.Sprintf("j=%s fields=%s ok=%s", c15hex([]byte(j)), c15fields(fs), fmtBool(ok))
 	case "shjoin":
@@ -857,6 +880,12 @@ func (r *c15) Exec(op []string) string {
 	case "par":
 		ss := c15strings(op[1:])
 		r.st.Note("concurrent")
+		for _, s := range ss {
+			if len(s) > 4096 {
+				r.st.Note("concurrent-with-string>4096")
+				break
+			}
+		}
 		qs := make([]string, len(ss))
 		sp := make([]string, len(ss))
 		var wg sync.WaitGroup
@@ -1036,6 +1065,199 @@ func genC15(g *G) {
 				line += " " + c15hex(b)
 			}
 			g.Case([]string{"reset", line})
+		}
+	}
+	// LAST (the pools are per process: a call that spoils a pooled buffer must not make the ordinary cases
+	// above fail in the run and pass when re-executed alone): large outputs and short calls after them
+	c15large(g)
+}
+
+// c15big returns a string for which Quote's output is exactly n bytes (n >= 4; shape 4: about n), built from the
+// quoting rule, not by calling the code under test.
+//
+//	0  one quoted run: letters and blanks                      'ab c'          out = len+2
+//	1  only single quotes and letters: no quoted run at all    a\'b            out = len+#quotes
+//	2  plain letters and ONE blank (first, last, or inside)    'aaaa aaa'      out = len+2
+//	3  plain letters and ONE single quote                      aaaa\'aaa       out = len+1
+//	4  everything: quotes, metacharacters, NUL, high bytes (length n, output longer)
+func c15big(g *G, shape, n int) []byte {
+	letters := func(b []byte) {
+		for i := range b {
+			b[i] = "abcxyz019_./"[g.Intn(12)]
+		}
+	}
+	pos := func(l int) int {
+		switch g.Intn(4) {
+		case 0:
+			return 0
+		case 1:
+			return l - 1
+		}
+		return g.Intn(l)
+	}
+	switch shape {
+	case 0:
+		b := make([]byte, n-2)
+		for i := range b {
+			b[i] = "abcxyz019_./ \t"[g.Intn(14)]
+		}
+		b[g.Intn(len(b))] = ' '
+		return b
+	case 1:
+		k := 1 + g.Intn(n/2)
+		b := make([]byte, n-k)
+		letters(b)
+		for _, i := range g.R.Perm(len(b))[:k] {
+			b[i] = '\''
+		}
+		return b
+	case 2:
+		b := make([]byte, n-2)
+		letters(b)
+		b[pos(len(b))] = " \t\n$"[g.Intn(4)]
+		return b
+	case 3:
+		b := make([]byte, n-1)
+		letters(b)
+		b[pos(len(b))] = '\''
+		return b
+	}
+	b := make([]byte, n)
+	for i := range b {
+		switch k := g.Intn(10); {
+		case k < 5:
+			b[i] = "abcxyz019_./"[g.Intn(12)]
+		case k < 9:
+			b[i] = c15alpha[g.Intn(len(c15alpha))]
+		default:
+			b[i] = byte(g.Intn(256))
+		}
+	}
+	return b
+}
+
+const c15shapes = 5
+
+// c15large: the size-threshold and carry-over families of stream C15.  Every history mixes calls whose output
+// crosses a threshold with short calls before and after them, Quote and Join alternating, because the pooled
+// bytes.Buffer is shared by both and keeps what the previous call left in it.
+func c15large(g *G) {
+	small := []string{"quote 612062", "join 782079 27", "quote 697427732061", "join .", "quote 27", "join 61 . 6220", "quote .", "join"}
+	sm := func(i int) string { return small[i%len(small)] }
+	hx := func(b []byte) string { return c15hex(b) }
+	off := int(c13genSeed() / 1000) // a different shape per threshold for every VERIF_SEED
+	if off < 0 {
+		off = -off
+	}
+	// (1) per threshold t: outputs of t-1, t, t+1 bytes (Quote alone, as the first and as the last argument of
+	// Join), a short call after each
+	for ti, t := range lbThresholds {
+		shapes := []int{(ti + off) % c15shapes, (ti + off + 2) % c15shapes}
+		if g.Thorough() {
+			shapes = []int{0, 1, 2, 3, 4}
+		} else if t >= 4096 {
+			shapes = shapes[:1]
+		}
+		for _, sh := range shapes {
+			ops := []string{"reset", sm(ti)}
+			if t >= 4096 && !g.Thorough() {
+				ops = append(ops, "quote "+hx(c15big(g, sh, t+1)), sm(ti+1), sm(ti+2),
+					"join "+hx(c15big(g, sh, t-2))+" 61", sm(ti+3), sm(ti+4))
+				g.Each(ops)
+				continue
+			}
+			for k, n := range []int{t - 1, t, t + 1} {
+				ops = append(ops, "quote "+hx(c15big(g, sh, n)), sm(ti+2*k+1), sm(ti+2*k+2))
+			}
+			// as Join arguments: the output is the quoted big string, a blank and one letter (t+1 and t bytes)
+			ops = append(ops, "join "+hx(c15big(g, sh, t-1))+" 61", sm(ti+7), "join 61 "+hx(c15big(g, sh, t-2)), sm(ti+8), sm(ti+9))
+			g.Each(ops)
+		}
+	}
+	// (2) beyond 4 KiB and 64 KiB: one long output, then short calls of every kind in the same history
+	type bigCase struct {
+		n, shape int
+		join     bool
+	}
+	bigs := []bigCase{{5000, 0, false}, {70000, 2, false}, {5000, 1, true}, {lbKiB64 + 1, 0, true}}
+	if g.Thorough() {
+		for _, n := range []int{5000, 8191, 8192, 8193, lbKiB64 - 1, lbKiB64, lbKiB64 + 1, 70000, 2*lbKiB64 + 1} {
+			for sh := 0; sh < 4; sh++ {
+				bigs = append(bigs, bigCase{n, sh, false}, bigCase{n, sh, true})
+			}
+		}
+	}
+	for i, bc := range bigs {
+		ops := []string{"reset", sm(i)}
+		if bc.join {
+			// the long output is assembled from three arguments
+			a := bc.n / 3
+			ops = append(ops, "join "+hx(c15big(g, bc.shape, a))+" "+hx(c15big(g, (bc.shape+1)%4, a))+" "+hx(c15big(g, bc.shape, bc.n-2*a-2)))
+		} else {
+			ops = append(ops, "quote "+hx(c15big(g, bc.shape, bc.n)))
+		}
+		for k := 1; k <= 8; k++ {
+			ops = append(ops, sm(i+k))
+		}
+		g.Each(ops)
+	}
+	// (3) Join of MANY arguments: the number of arguments around every threshold (short words, some of them
+	// empty or in need of quoting), ascending and descending in one history, short joins in between
+	word := func() string { return hx(c15randString(g, 3, true)) }
+	joinN := func(n int) string {
+		var sb strings.Builder
+		sb.WriteString("join")
+		for k := 0; k < n; k++ {
+			sb.WriteByte(' ')
+			sb.WriteString(word())
+		}
+		return sb.String()
+	}
+	counts := lbAround(g.Scale(1025, 4097))
+	for lo := 0; lo < len(counts); lo += 6 {
+		grp := counts[lo:min(lo+6, len(counts))]
+		ops := []string{"reset"}
+		for _, n := range grp {
+			ops = append(ops, joinN(n), sm(n))
+		}
+		for k := len(grp) - 1; k >= 0; k-- {
+			ops = append(ops, joinN(grp[k]), sm(k))
+		}
+		g.Each(ops)
+	}
+	// a command line of 600 flags, and one of 4097 words; then short calls
+	flags := "join"
+	for k := 0; k < 600; k++ {
+		flags += " " + hx([]byte(fmt.Sprintf("--opt%d=%s", k, []string{"v", "a b", "it's", "", "$HOME/x y", "*"}[g.Intn(6)])))
+	}
+	g.Each([]string{"reset", sm(1), flags, sm(0), sm(1), sm(2), flags, sm(3)})
+	g.Each([]string{"reset", sm(2), joinN(4097), sm(0), sm(1), joinN(9), sm(2)})
+	// (4) concurrent callers, some of them with long strings: the pool hands buffers of very different
+	// capacity to whoever asks next
+	for i := 0; i < g.Scale(2, 12); i++ {
+		line := "par"
+		for k := 0; k < 8; k++ {
+			switch k {
+			case 1:
+				line += " " + hx(c15big(g, i%4, 5000+g.Intn(200)))
+			case 4:
+				line += " " + hx(c15big(g, (i+1)%4, 4090+g.Intn(10)))
+			case 6:
+				line += " " + hx(c15big(g, (i+2)%4, 600))
+			default:
+				line += " " + hx(c15randString(g, 10, true))
+			}
+		}
+		g.Each([]string{"reset", line})
+	}
+	// (5) the two shells on a long word among short ones (no NUL; nothing bash expands inside the words)
+	if c15haveShells() {
+		for i := 0; i < g.Scale(1, 6); i++ {
+			line := "shjoin " + hx(c15big(g, i%4, 5000+i)) + " 612062 " + hx(c15big(g, (i+1)%4, 4097)) + " 27 61"
+			for k := 0; k < 300; k++ {
+				line += " " + hx([]byte(fmt.Sprintf("-f%d", k)))
+			}
+			g.Each([]string{"reset", line})
 		}
 	}
 }
